@@ -143,7 +143,8 @@ def recoverReset (j : Json) : Except String (RecoverSt × String) := do
     apps := (appsOf accepted).map (·.id),
     asks := (asksOf accepted).map (fun x => (x.key, x.app)),
     bound := (allocsOf accepted).map (fun x => (x.key, x.app, x.node)) }
-  let st' : RecoverSt := { core := { prev := some b, shim := view } }
+  let st' : RecoverSt := { core := { prev := some b, shim := view, everBound := (allocsOf accepted).map (·.key),
+                                     rmPlaced := (allocsOf accepted).map (·.key) } }
   let note := if !aOK then " old-core-books-unbalanced" else if viewDiffers a accepted then " shim-view-differs" else ""
   match diff, fails.isEmpty with
   | none, true => return (st', if note == "" then "ok" else "ok" ++ note)
